@@ -71,6 +71,20 @@ fn loose(obs: &Value) -> Value {
   })
 }
 
+/// `loose` without the entries that nothing reaches in *either* graph (an
+/// importer that was visited and then became an error entry leaves its
+/// subgraph behind - the C01 finding; which build order produces such
+/// orphans is not what this property is about).
+fn without(obs: &Value, orphans: &std::collections::BTreeSet<String>) -> Value {
+  let mut v = obs.clone();
+  for field in ["slots", "modules", "redirects"] {
+    if let Some(m) = v.get_mut(field).and_then(|m| m.as_object_mut()) {
+      m.retain(|k, _| !orphans.contains(k));
+    }
+  }
+  v
+}
+
 fn slot_class(v: Option<&Value>) -> String {
   match v {
     None => "absent".into(),
@@ -436,6 +450,25 @@ pub fn run_case(tape: &mut Tape, _tier: Tier, _p: &CaseParams) -> CaseOutcome {
     );
     return out;
   }
+  // entries (and redirect sources) that one of the two graphs has but cannot
+  // reach from its roots
+  let part_orphans: std::collections::BTreeSet<String> = {
+    let mut o = std::collections::BTreeSet::new();
+    for st in [&steps[np - 1].1, &steps[np].1] {
+      let l = loose(&st.obs);
+      for field in ["slots", "redirects"] {
+        if let Some(m) = l[field].as_object() {
+          for k in m.keys() {
+            if !st.reach.contains(k) {
+              o.insert(k.clone());
+            }
+          }
+        }
+      }
+    }
+    o
+  };
+  out.count("partition_orphans_ignored", part_orphans.len() as u64);
   // partition: entries first (classified by what they are), then the rest
   {
     let li = loose(incremental);
@@ -463,6 +496,9 @@ pub fn run_case(tape: &mut Tape, _tier: Tier, _p: &CaseParams) -> CaseOutcome {
     let keys: std::collections::BTreeSet<&String> =
       si.keys().chain(sa.keys()).collect();
     for k in keys {
+      if part_orphans.contains(k.as_str()) {
+        continue;
+      }
       if si.get(k) != sa.get(k) {
         out.violation(
           "C19",
@@ -494,7 +530,10 @@ pub fn run_case(tape: &mut Tape, _tier: Tier, _p: &CaseParams) -> CaseOutcome {
       }
     }
   }
-  if let Some((path, a, b)) = first_diff(&loose(incremental), &loose(at_once)) {
+  if let Some((path, a, b)) = first_diff(
+    &without(&loose(incremental), &part_orphans),
+    &without(&loose(at_once), &part_orphans),
+  ) {
     out.violation(
       "C19",
       "partition-equals-at-once",
